@@ -75,9 +75,13 @@ def gen_call_1d(rng, last=None):
                 mk.update(num_knots=k, spline_degree=d, lam=10)
             kw = {'method': im, 'method_kwargs': mk}
         elif m == 'optimize_extended_range':
-            kw = {'method': rng.choice(['asls', 'modpoly']), 'min_value': 2, 'max_value': 3, 'height_scale': 0.5}
+            kw = {'method': rng.choice(['asls', 'modpoly', 'imodpoly', 'pspline_asls']), 'min_value': 2, 'max_value': 3,
+                  'side': rng.choice(['both', 'left', 'right']), 'width_scale': rng.choice([0.1, 0.2, 0.25, 0.3]),
+                  'height_scale': rng.choice([0.5, 1.0]), 'sigma_scale': rng.choice([0.08, 0.1])}
             if kw['method'] == 'asls':
                 kw['method_kwargs'] = {'max_iter': 5}
+            elif kw['method'] == 'pspline_asls':
+                kw['method_kwargs'] = {'max_iter': 5, 'num_knots': 6, 'spline_degree': 3}
         else:
             kw = {'method': 'asls', 'method_kwargs': {'lam': 1e3, 'max_iter': 5},
                   'regions': [[None, 8]], 'sampling': 2, 'lam': rng.choice([None, 1e2])}
@@ -442,11 +446,55 @@ def describe_diff(res, ref):
     return f'params differ in {bad}'
 
 
+# scalar float parameters of the methods themselves (not cache keys), passed explicitly so that `echo` can nudge them
+FLOAT_KW = {'modpoly': {'tol': 1e-3}, 'imodpoly': {'tol': 1e-3, 'num_std': 1.0}, 'penalized_poly': {'tol': 1e-3, 'alpha_factor': 0.9},
+            'goldindec': {'tol': 1e-3, 'peak_ratio': 0.5}, 'quant_reg': {'quantile': 0.05}, 'loess': {'fraction': 0.4},
+            'asls': {'lam': 1e3, 'p': 0.02}, 'arpls': {'lam': 1e3}, 'airpls': {'lam': 1e3}, 'iarpls': {'lam': 1e3},
+            'psalsa': {'lam': 1e3, 'p': 0.5}, 'iasls': {'lam': 1e3}, 'pspline_asls': {'lam': 10.0, 'p': 0.02},
+            'pspline_arpls': {'lam': 10.0}, 'pspline_airpls': {'lam': 10.0}, 'mixture_model': {'lam': 10.0, 'p': 0.02},
+            'irsqr': {'lam': 10.0, 'quantile': 0.05}, 'pspline_iarpls': {'lam': 10.0}, 'pspline_psalsa': {'lam': 10.0},
+            'pspline_lsrpls': {'lam': 10.0}, 'pspline_iasls': {'lam': 10.0}, 'dietrich': {'num_std': 3.0},
+            'adaptive_minmax': {'constrained_fraction': 0.05, 'constrained_weight': 1e5},
+            'golotvin': {'num_std': 2.0}, 'std_distribution': {'num_std': 1.1}, 'fastchrom': {}, 'cwt_br': {'num_std': 1.0}}
+
+
+def echo(rng, calls, float_kw, limit=3):
+    """Repeats some calls of a history right after themselves (or one call later) with ONE float parameter nudged by
+    0.4-4 %: near-equal parameter values collide in every integer derived from them (window sizes, added points,
+    section counts), which is where a cache keyed on derived quantities serves the wrong entry."""
+    out = []
+    pending = []
+    n = 0
+    for c in calls:
+        out.append(c)
+        for e in pending:
+            out.append(e)
+        pending = []
+        # optimizers derive window sizes / added points / sampling grids from their own float parameters
+        if c['m'] == 'set_solver' or n >= limit or rng.random() > (0.8 if 'method' in c.get('kw', {}) else 0.3):
+            continue
+        kw = dict(float_kw.get(c['m'], {}))
+        kw.update(c['kw'])
+        floats = sorted(k for k, v in kw.items() if isinstance(v, float))
+        if not floats:
+            continue
+        k = rng.choice(floats)
+        c2 = json.loads(json.dumps(dict(c, kw=kw)))
+        c2['kw'][k] = kw[k] * (1 + rng.choice([0.004, 0.02, -0.02, 0.04, -0.04]))
+        n += 1
+        if rng.random() < 0.7:
+            out.append(c2)
+        else:
+            pending.append(c2)
+    return out + pending
+
+
 def gen_history_1d(rng, nmax=12):
     N = rng.choice([24, 30, 37, 45, 60])
     xk = rng.choice(['none', 'none', 'uniform', 'random', 'random', 'dup', 'unsorted'])
     last = {}
     calls = [gen_call_1d(rng, last) for _ in range(rng.randint(1, nmax))]
+    calls = echo(rng, calls, FLOAT_KW)
     return {'dim': 1, 'N': N, 'x': xk, 'seed': rng.randrange(10 ** 6), 'calls': calls}
 
 
@@ -655,7 +703,8 @@ def run(ctx):
                 'with equal num_knots+degree, require_unique_x methods, solver setter, wrong-length/NaN/None data, bad weights, '
                 'invalid orders/knots/degrees/diff_order, bodies that raise after their setup); x in {None (lazy), uniform, random, '
                 'with a duplicate, unsorted}; per history a pool of reusable argument OBJECTS (one weights array, one data array) that calls '
-                'refill in place and pass again (the fresh object gets copies of the current values); distinct = distinct history; non-trivial = at least two different polynomial orders '
+                'refill in place and pass again (the fresh object gets copies of the current values); echoed calls: a call repeated with one '
+                'of its own float parameters nudged by 0.4-4 % (optimizer scales, lam, p, tol, fraction, quantile); distinct = distinct history; non-trivial = at least two different polynomial orders '
                 'or two different spline keys in the history')
     ctx.trusted += [
         'np.linalg.pinv, polyvander, SplineBasis, mapdomain are deterministic functions of their arguments (Section variables '
